@@ -79,6 +79,68 @@ class SerializerWrap(Elaboratable):
         return m
 
 
+class TwinSerializerWrap(SerializerWrap):
+    """every serialize_in[p] / serialize_out[p] is called by two AdapterTrans (slot k calls port k % ports)"""
+
+    def __init__(self, ports: int, depth: int, w: int):
+        super().__init__(ports, depth, w)
+        self.serialize_in = list(self.ser.serialize_in) * 2
+        self.serialize_out = list(self.ser.serialize_out) * 2
+
+
+class TwinZipper(Elaboratable):
+    """write_args / write_results / read of the zipper are each called by two AdapterTrans"""
+
+    def __init__(self, wa: int, wr: int):
+        from transactron.lib.reqres import ArgumentsToResultsZipper
+
+        self.z = ArgumentsToResultsZipper([("data", wa)], [("data", wr)])
+        self.write_args = [self.z.write_args] * 2
+        self.write_results = [self.z.write_results] * 2
+        self.read = [self.z.read] * 2
+        self.peek_arg = self.z.peek_arg
+
+    def elaborate(self, platform):
+        m = TModule()
+        m.submodules.z = self.z
+        return m
+
+
+def _probe_zipper(sim) -> str:
+    """priority among the two callers of each exclusive zipper method, probed on the real circuit:
+    bit = the second caller wins when both request"""
+    tr = sim.run([
+        {("write_args", 0): 1, ("write_args", 1): 1},
+        {("write_results", 0): 1, ("write_results", 1): 1, ("read", 0): 0, ("read", 1): 0},
+    ])
+    bit = lambda r, m: str(int(r[(m, 0)] is None and r[(m, 1)] is not None))  # noqa: E731
+    return bit(tr[0], "write_args") + bit(tr[1], "write_results") + bit(tr[1], "read")
+
+
+def _probe_serializer(sim, n: int) -> tuple[list[int], list[int]]:
+    """priority orders of the 2n request slots and of the 2n response slots, probed on the real circuit
+    (repeatedly: everybody still in the race requests, the winner leaves)"""
+    order: list[int] = []
+    left = list(range(2 * n))
+    while left:
+        op = {("serialize_in", k): 0 for k in left}
+        op[("req",)] = 0
+        r = sim.run([op])[0]
+        won = [k for k in left if r[("serialize_in", k)] is not None]
+        if not won:
+            raise RuntimeError("probe: no request slot granted")
+        order.append(won[0])
+        left.remove(won[0])
+    oorder: list[int] = []
+    for p in range(n):
+        fill = {("serialize_in", p): 0, ("req",): 0}
+        both = {("serialize_out", p): 0, ("serialize_out", p + n): 0, ("resp",): 0}
+        r = sim.run([fill, both])[1]
+        first = p + n if (r[("serialize_out", p)] is None and r[("serialize_out", p + n)] is not None) else p
+        oorder += [first, p + n if first == p else p]
+    return order, oorder
+
+
 def _in_order(sim, ports: int) -> list[int]:
     """Scheduling order of the AdapterTrans transactions calling serialize_in[i], read from the real manager."""
     from transactron.core.manager import MethodMap as MM, TransactionManager
@@ -97,13 +159,19 @@ def _in_order(sim, ports: int) -> list[int]:
 
 def _get(d: dict):
     kind = d["component"]
-    key = repr(sorted((k, v) for k, v in d.items() if k != "order"))
+    key = repr(sorted((k, bool(v) if k == "twin" else v) for k, v in d.items() if k not in ("order", "oorder")))
     if key not in _sims:
-        if kind == "zipper":
+        if kind == "zipper" and d.get("twin"):
+            sim = CompSim(lambda: TwinZipper(d["wa"], d["wr"]))
+            _sims[key] = (sim, _probe_zipper(sim))
+        elif kind == "zipper":
             from transactron.lib.reqres import ArgumentsToResultsZipper
 
             sim = CompSim(lambda: ArgumentsToResultsZipper([("data", d["wa"])], [("data", d["wr"])]))
             _sims[key] = (sim, None)
+        elif d.get("twin"):
+            sim = CompSim(lambda: TwinSerializerWrap(d["ports"], d["depth"], d["w"]))
+            _sims[key] = (sim, _probe_serializer(sim, d["ports"]))
         else:
             sim = CompSim(lambda: SerializerWrap(d["ports"], d["depth"], d["w"]))
             _sims[key] = (sim, _in_order(sim, d["ports"]))
@@ -119,6 +187,30 @@ def impl(case: Case) -> list[str]:
     sim, _ = _get(d)
     lines = [_kv(op) for op in case.ops]
     out = ["ok"]
+    if d["component"] == "zipper" and d.get("twin"):
+        wa = d["wa"]
+        opt = lambda v: None if v == "-" else int(v)  # noqa: E731
+        ops = [
+            {
+                ("write_args", 0): opt(o["wa"]), ("write_args", 1): opt(o["wa2"]),
+                ("write_results", 0): opt(o["wr"]), ("write_results", 1): opt(o["wr2"]),
+                ("read", 0): 0 if o["rd"] == "1" else None, ("read", 1): 0 if o["rd2"] == "1" else None,
+                ("peek_arg",): 0 if o["pk"] == "1" else None,
+            }
+            for o in lines
+        ]
+        for r in sim.run(ops):
+            def who(m):
+                done = [c + 1 for c in (0, 1) if r[(m, c)] is not None]
+                return "0" if not done else (str(done[0]) if len(done) == 1 else "B")  # B = both callers executed
+
+            rds = [r[("read", c)] for c in (0, 1) if r[("read", c)] is not None]
+            rdv = "-" if not rds else f"{rds[0] & ((1 << wa) - 1)}/{rds[0] >> wa}"
+            out.append(
+                f"wa={int(who('write_args') != '0')} wr={int(who('write_results') != '0')} rd={rdv} "
+                f"pk={_fo(r[('peek_arg',)])} who={who('write_args')}{who('write_results')}{who('read')}"
+            )
+        return out
     if d["component"] == "zipper":
         wa = d["wa"]
         ops = [
@@ -139,7 +231,7 @@ def impl(case: Case) -> list[str]:
                 f"rd={rds} pk={_fo(r[('peek_arg',)])}"
             )
         return out
-    n = d["ports"]
+    n = d["ports"] * (2 if d.get("twin") else 1)  # number of slots (slot k calls port k % ports)
     ops = []
     for o in lines:
         ins = _olist(o["in"])
@@ -181,6 +273,20 @@ def monitor(case: Case, out: list[str]) -> Optional[str]:
             i = _kv(op)
             o = dict(x.split("=", 1) for x in ob.split())
             where = f"zipper cycle {k} [{op}] -> [{ob}]: "
+            if "who" in o:
+                # two callers per exclusive method: at most one executes, and only one that attempted; the
+                # pairing property is then checked on the union of the callers
+                for mname, key, w_ in (("write_args", "wa", o["who"][0]), ("write_results", "wr", o["who"][1]), ("read", "rd", o["who"][2])):
+                    if w_ == "B":
+                        return where + f"both callers of the exclusive method {mname} execute in one cycle"
+                    none = ("-", "0") if key == "rd" else ("-",)
+                    if w_ in "12" and i[key + ("" if w_ == "1" else "2")] in none:
+                        return where + f"caller {w_} of {mname} executes without attempting"
+                i = dict(i)
+                for key in ("wa", "wr"):
+                    i[key] = i[key + "2"] if o["who"]["wa wr".split().index(key)] == "2" else (
+                        i[key] if i[key] != "-" else i[key + "2"])
+                i["rd"] = "1" if "1" in (i["rd"], i["rd2"]) else "0"
             if o["wa"] == "1" and i["wa"] == "-" or o["wr"] == "1" and i["wr"] == "-":
                 return where + "a write executes without being attempted"
             if o["pk"] != "-":
@@ -214,13 +320,13 @@ def monitor(case: Case, out: list[str]) -> Optional[str]:
         pending = len(ins) - nouts
         # --- requests
         if "," in o["in"] or "," in o["out"]:
-            return where + "two ports execute in one cycle"
+            return where + "two callers of the (mutually exclusive) serialize_in / serialize_out methods execute in one cycle"
         if o["in"] != "-":
-            p = int(o["in"])
+            p = int(o["in"])  # slot; slot k calls port k % n
             if att[p] is None:
-                return where + f"serialize_in[{p}] executes without being attempted"
+                return where + f"serialize_in slot {p} executes without being attempted"
             if o["rq"] == "-" or int(o["rq"]) != att[p]:
-                return where + f"server receives {o['rq']} for the request {att[p]} of client {p}"
+                return where + f"server receives {o['rq']} for the request {att[p]} of client {p % n}"
             if i["req"] != "1" or pending >= depth:
                 return where + "request accepted although the server is not ready or the queue is full"
         else:
@@ -232,12 +338,12 @@ def monitor(case: Case, out: list[str]) -> Optional[str]:
         if o["out"] != "-":
             p = int(o["out"])
             if i["out"][p] != "1":
-                return where + f"serialize_out[{p}] executes without being attempted"
+                return where + f"serialize_out slot {p} executes without being attempted"
             if nouts >= len(ins):
                 return where + "a response is delivered although no request is outstanding"
-            if ins[nouts] != p:
+            if ins[nouts] != p % n:
                 return where + (
-                    f"response #{nouts} delivered to client {p}, but request #{nouts} came from client {ins[nouts]}"
+                    f"response #{nouts} delivered to client {p % n}, but request #{nouts} came from client {ins[nouts]}"
                 )
             if o["rs"] != "1" or i["resp"] != "1" or o["data"] != i["rdata"]:
                 return where + "delivered data is not the server's response of this cycle (lost or duplicated response)"
@@ -245,10 +351,10 @@ def monitor(case: Case, out: list[str]) -> Optional[str]:
         else:
             if o["rs"] != "0":
                 return where + "a server response is consumed but delivered to nobody (lost response)"
-            if pending > 0 and i["resp"] == "1" and i["out"][ins[nouts]] == "1":
+            if pending > 0 and i["resp"] == "1" and any(b == "1" and sl % n == ins[nouts] for sl, b in enumerate(i["out"])):
                 return where + f"client {ins[nouts]} asks for its response, the server has it, but it is not delivered"
         if o["in"] != "-":
-            ins.append(int(o["in"]))
+            ins.append(int(o["in"]) % n)
         if o["clr"] != i["clr"]:
             return where + "clear attempted/executed mismatch"
         if o["clr"] == "1":
@@ -259,6 +365,18 @@ def monitor(case: Case, out: list[str]) -> Optional[str]:
 def nontrivial(case: Case, out: list[str]) -> bool:
     obs = [dict(x.split("=", 1) for x in ob.split()) for ob in out[1:]]
     ins = [_kv(op) for op in case.ops]
+    if case.desc.get("twin") and case.desc["component"] == "zipper":
+        # both callers of some exclusive method request in one cycle and one of them is granted
+        return any(
+            (i["wa"] != "-" and i["wa2"] != "-" and o["who"][0] != "0") or (i["rd"] == "1" and i["rd2"] == "1" and o["who"][2] != "0")
+            for i, o in zip(ins, obs)
+        )
+    if case.desc.get("twin"):
+        n = case.desc["ports"]
+        def both(bits_or_list, p):
+            return bits_or_list[p] not in ("-", "0") and bits_or_list[p + n] not in ("-", "0")
+        return any(o["in"] != "-" and both(i["in"].split(","), int(o["in"].split(",")[0]) % n) for i, o in zip(ins, obs)) and any(
+            o["out"] != "-" and both(i["out"], int(o["out"].split(",")[0]) % n) for i, o in zip(ins, obs))
     if case.desc["component"] == "zipper":
         fwd = any(o["rd"] != "-" and o["wr"] == "1" for o in obs)  # result forwarded in the cycle it is written
         buf = any(o["rd"] != "-" and o["wr"] == "0" for o in obs)  # result read from the overflow register
@@ -281,16 +399,48 @@ def nontrivial(case: Case, out: list[str]) -> bool:
 # --------------------------------------------------------------------------- case generation
 
 
-def _zcase(wa: int, wr: int, ops: list[str], tag: str) -> Case:
-    return Case(f"cfg comp=zipper wa={wa} wr={wr}", ops, {"component": "zipper", "wa": wa, "wr": wr}, tag)
+def _zcase(wa: int, wr: int, ops: list[str], tag: str, twin: bool = False) -> Case:
+    d = {"component": "zipper", "wa": wa, "wr": wr}
+    if twin:
+        d["twin"] = "1"
+        d["twin"] = _get(d)[1]  # probed priorities (3 bits)
+        return Case(f"cfg comp=zipper wa={wa} wr={wr} twin={d['twin']}", ops, d, tag)
+    return Case(f"cfg comp=zipper wa={wa} wr={wr}", ops, d, tag)
 
 
-def _scase(ports: int, depth: int, w: int, ops: list[str], tag: str) -> Case:
+def _scase(ports: int, depth: int, w: int, ops: list[str], tag: str, twin: bool = False) -> Case:
     d = {"component": "serializer", "ports": ports, "depth": depth, "w": w}
+    if twin:
+        d["twin"] = 1
+        d["order"], d["oorder"] = _get(d)[1]
+        return Case(
+            f"cfg comp=serializer ports={ports} depth={depth} w={w} order={','.join(map(str, d['order']))} "
+            f"oorder={','.join(map(str, d['oorder']))}", ops, d, tag,
+        )
     d["order"] = sched_order(d)
     return Case(
         f"cfg comp=serializer ports={ports} depth={depth} w={w} order={','.join(map(str, d['order']))}", ops, d, tag
     )
+
+
+def _twin_zops(rng, wa: int, wr: int, n: int, p: float) -> list[str]:
+    """two callers on write_args / write_results / read; values are running counters so that a double
+    execution or a wrong winner shows in the data"""
+    ops = []
+    c = 0
+    for _ in range(n):
+        t = {}
+        for key, w_ in (("wa", wa), ("wa2", wa), ("wr", wr), ("wr2", wr)):
+            if rng.random() < p:
+                t[key] = str(c % (1 << w_))
+                c += 1
+            else:
+                t[key] = "-"
+        ops.append(
+            f"cyc wa={t['wa']} wr={t['wr']} rd={int(rng.random() < p)} pk=1 wa2={t['wa2']} wr2={t['wr2']} "
+            f"rd2={int(rng.random() < p)}"
+        )
+    return ops
 
 
 def _zops(rng, wa: int, wr: int, n: int, pa: float, pr: float, prd: float, counters: bool) -> list[str]:
@@ -344,6 +494,14 @@ def gen_cases(ctx: Check, rng) -> list[Case]:
         )
         for pa, pr, prd in [(0.5, 0.5, 0.5), (0.9, 0.3, 0.9), (0.3, 0.9, 0.9), (1.0, 1.0, 1.0), (0.8, 0.8, 0.3)]:
             cases.append(_zcase(wa, wr, _zops(rng, wa, wr, n, pa, pr, prd, counters=rng.random() < 0.7), "random"))
+    # ---- two callers per exclusive method (an accidental `nonexclusive=True` lets both execute)
+    for wa, wr in [(3, 4)] + ([(1, 1), (8, 2)] if thorough else []):
+        for p in (0.5, 0.9):
+            cases.append(_zcase(wa, wr, _twin_zops(rng, wa, wr, n, p), "random", twin=True))
+    for ports, depth in [(1, 2), (2, 3)] + ([(3, 4), (2, 1), (4, 6)] if thorough else []):
+        w = 4
+        for pin, pout, preq, presp in [(0.5, 0.7, 0.9, 0.8), (0.9, 1.0, 1.0, 0.5)]:
+            cases.append(_scase(ports, depth, w, _sops(rng, 2 * ports, w, n, pin, pout, preq, presp, 0.0), "random", twin=True))
     if thorough:
         # every input sequence of length 4 over {no write, write}^2 x {read} (values = running counters)
         for seq in itertools.product(range(8), repeat=4):
@@ -410,7 +568,13 @@ def gen_cases(ctx: Check, rng) -> list[Case]:
 def more_cases(case: Case, rng):
     d = case.desc
     for _ in range(30):
-        if d["component"] == "zipper":
+        if d.get("twin") and d["component"] == "zipper":
+            yield _zcase(d["wa"], d["wr"], _twin_zops(rng, d["wa"], d["wr"], 150, 0.3 + 0.7 * rng.random()), "search", twin=True)
+        elif d.get("twin"):
+            yield _scase(d["ports"], d["depth"], d["w"],
+                         _sops(rng, 2 * d["ports"], d["w"], 150, rng.random(), rng.random(), 0.5 + rng.random() / 2, rng.random(), 0.0),
+                         "search", twin=True)
+        elif d["component"] == "zipper":
             yield _zcase(d["wa"], d["wr"], _zops(rng, d["wa"], d["wr"], 200, rng.random(), rng.random(), rng.random(), True), "search")
         else:
             yield _scase(
@@ -426,12 +590,13 @@ def run(ctx: Check):
         "cycle); zipper non-trivial = a result is forwarded in its write cycle, another is read from the buffer, and "
         "the argument FIFO is full at least once; serializer non-trivial = two clients compete for the server in one "
         "cycle, the pending queue fills up, and responses are delivered (depth >= 6: >= 3 requests outstanding and the "
-        "queue pointers wrap at least twice)"
+        "queue pointers wrap at least twice); two-caller cases (every exclusive method called by two transactions): "
+        "non-trivial = both callers of a method request in one cycle and exactly one is granted"
     )
     ctx.proof_stage()
     cases = gen_cases(ctx, ctx.rng("gen"))
     for c in cases:
-        ctx.count(f"component_{c.desc['component']}")
+        ctx.count(f"component_{c.desc['component']}" + ("_two_callers" if c.desc.get("twin") else ""))
         if c.desc["component"] == "serializer":
             ctx.count(f"serializer_ports_{c.desc['ports']}")
             ctx.count(f"serializer_depth_{c.desc['depth']}")
